@@ -44,13 +44,17 @@ def slice_vals(ex, r):
 
 
 def u256_term(dom, arr):
-    """[u64;4] little-endian limbs -> 256-bit term"""
+    """[u64;4] little-endian limbs -> 256-bit term (the original term when the limbs were cut from one)"""
     fs = arr.f if isinstance(arr, Agg) else arr
+    if len(fs) == 4 and all(isinstance(x, Sc) and isinstance(x.v, Sym) and isinstance(x.v.parts, tuple) and x.v.parts[0] == "limb" for x in fs):
+        w = fs[0].v.parts[1]
+        if all(x.v.parts[1] is w and x.v.parts[2] == i for i, x in enumerate(fs)):
+            return w
     return z3.Concat(*[dom.term(x) for x in reversed(fs)])
 
 
 def u256_val(t):
-    return Agg([Sc(Sym(z3.Extract(64 * i + 63, 64 * i, t)), "u64") for i in range(4)], name="array")
+    return Agg([Sc(Sym(z3.Extract(64 * i + 63, 64 * i, t), parts=("limb", t, i)), "u64") for i in range(4)], name="array")
 
 
 def sym_u256(name):
